@@ -468,3 +468,63 @@ def i8(facts, tier):
     if n == 0:
         yield ob(["C07", "C08", "C06"], "I8", "no-swallowing-adaptor", "pass", "", "no flat_map / flatten / filter_map over Results of the library's "
                  "error types in savefile / savefile-abi", nontrivial=False)
+
+
+# ---------------------------------------------------------------------------------------------
+# I9: the library's own Write impls never report a zero-length write for a non-empty buffer
+
+@rule("I9", ["C08", "C09"], floor=2, doc="`Write::write` implementations of the library (CryptoWriter, FlexBuffer, ...) either take the whole buffer "
+      "(`Ok(buf.len())`) or a part that is provably non-empty: a count of the form min(buf.len(), room) needs a guard that room > 0, "
+      "because `write_all` turns Ok(0) into a WriteZero error")
+def i9(facts, tier):
+    for f in sorted(list(facts.fns_of_crate("savefile")) + list(facts.fns_of_crate("savefile_abi")), key=lambda g: g["id"]):
+        im = f.get("impl") or {}
+        if im.get("trait") != "std::io::Write" or f.get("name") != "write" or not f.get("body"):
+            continue
+        bufv = None
+        ps = [p for p in f["params"] if p.get("pat") and p["pat"].get("k") == "Bind"]
+        if len(ps) >= 2:
+            bufv = ps[1]["pat"]["v"]
+        lets = {x["pat"]["v"]: x["init"] for x in walk(f["body"]) if x.get("k") == "LetS" and x["pat"].get("k") == "Bind" and x.get("init") is not None}
+
+        def is_buf_len(e, depth=0):
+            e = peel_block(peel(e))
+            if e.get("k") == "Var" and e["v"] in lets and depth < 5:
+                return is_buf_len(lets[e["v"]], depth + 1)
+            return e.get("k") == "Call" and (callee(e) or "").endswith("::len") and e.get("args") and \
+                peel(e["args"][0]).get("k") == "Var" and peel(e["args"][0])["v"] == bufv
+
+        rets = []
+        for x in walk(f["body"]):
+            if x.get("k") == "Adt" and x.get("adt") == "core::result::Result" and x.get("variant") == "Ok" and x.get("fields"):
+                if (x.get("ty") or "").startswith("core::result::Result<usize"):
+                    rets.append(x)
+        bad = None
+        for r in rets:
+            cnt = r["fields"][0]["e"]
+            if is_buf_len(cnt):
+                continue
+            e = peel_block(peel(cnt))
+            if e.get("k") == "Var" and e["v"] in lets:
+                e = peel_block(peel(lets[e["v"]]))
+            if e.get("k") == "Call" and (callee(e) or "").endswith("::min") and len(e.get("args", [])) == 2:
+                other = [a for a in e["args"] if not is_buf_len(a)]
+                ov = peel(other[0]) if other else {}
+                guarded = False
+                if ov.get("k") == "Var":
+                    for y in walk(f["body"]):
+                        if y.get("k") == "If":
+                            c = peel_block(peel(y["c"]))
+                            if c.get("k") == "Bin" and c["op"] in ("Eq", "Ne", "Gt", "Lt") and \
+                                    any(z.get("k") == "Var" and z["v"] == ov["v"] for z in walk(c)) and \
+                                    any(z.get("k") == "Lit" and z.get("int") == 0 for z in walk(c)):
+                                guarded = True
+                if not guarded:
+                    bad = (r, "min(buf.len(), " + (ov.get("v", "?").split("#")[0] if ov else "?") + ")")
+            else:
+                bad = bad or (r, "a count that is not buf.len()")
+        key = im.get("self_ty", f["id"])
+        yield ob(["C08", "C09"], "I9", key, "violation" if bad and "min(" in bad[1] else ("undecided" if bad else "pass"), where(f, bad[0] if bad else None),
+                 f"{f['id']}: every Ok(..) reports the whole buffer as written" if not bad else
+                 f"{f['id']}: returns Ok({bad[1]}) with no guard that the second operand is non-zero: when there is no room left a non-empty buffer "
+                 f"gets Ok(0), which `write_all` reports as a WriteZero error (the call fails for the payload size that fills the buffer exactly)")
